@@ -36,7 +36,12 @@ TREE_SRC = r'''
 import os, subprocess, sys, time
 W, ident, depth, fanout, root_sleep, child_sleep = sys.argv[1], sys.argv[2], int(sys.argv[3]), int(sys.argv[4]), float(sys.argv[5]), float(sys.argv[6])
 role = sys.argv[7] if len(sys.argv) > 7 else "root"
-threaded = len(sys.argv) > 8 and sys.argv[8] == "threaded"
+flags = sys.argv[8].split(",") if len(sys.argv) > 8 else []
+threaded = "threaded" in flags
+if "stubborn" in flags and role != "root":
+    import signal
+    signal.signal(signal.SIGTERM, signal.SIG_IGN)    # a descendant that ignores a polite request to terminate
+    signal.signal(signal.SIGHUP, signal.SIG_IGN)
 pf = os.path.join(W, "pids." + ident)
 fd = os.open(pf, os.O_WRONLY | os.O_APPEND | os.O_CREAT, 0o644)
 os.write(fd, ("%d %d %s\n" % (os.getpid(), os.getppid(), role)).encode()); os.close(fd)
@@ -44,8 +49,11 @@ kids = []
 def spawn():
     for k in range(fanout):
         kids.append(subprocess.Popen([sys.executable, "-S", os.path.abspath(__file__), W, ident, str(depth - 1), str(fanout),
-                                      str(root_sleep), str(child_sleep), "child"] + (["threaded"] if threaded else []),
-                                     stdout=subprocess.DEVNULL))
+                                      str(root_sleep), str(child_sleep), "child"] + ([",".join(flags)] if flags else []),
+                                     stdout=subprocess.DEVNULL,
+                                     # a stubborn descendant is a detached service: it holds none of the benchmark's pipes
+                                     stderr=(subprocess.DEVNULL if "stubborn" in flags else None),
+                                     stdin=(subprocess.DEVNULL if "stubborn" in flags else None)))
     if threaded:
         time.sleep(child_sleep + root_sleep)     # the thread that forked the children stays alive
 if depth > 0:
@@ -164,14 +172,17 @@ def direct_part(chk, exprs):
         kind = rng.choice(["timeout", "timeout", "in-time", "no-limit"])
         limit = (rng.choice([1, 2]) if depth < 2 else 2) if kind != "no-limit" else -1
         scen.append(dict(id="d%d" % i, depth=depth, fanout=fan, kind=kind, limit=limit, threaded=(i % 4 == 1 and depth > 0),
+                         stubborn=(i % 3 == 0 and depth > 0),
                          root_sleep=(30.0 if kind == "timeout" else rng.choice([0.1, 0.4])),
                          child_sleep=(60.0 if kind == "timeout" else 0.3)))
 
     def one(sc):
         cmd = "%s -S %s %s %s %d %d %s %s" % (core.PY, os.path.join(W, "tree.py"), W, sc["id"], sc["depth"], sc["fanout"],
                                                sc["root_sleep"], sc["child_sleep"])
-        if sc.get("threaded"):
-            cmd += " root threaded"       # children are forked by a thread that is not the main thread
+        fl = [f_ for f_ in ("threaded", "stubborn") if sc.get(f_)]
+        if fl:
+            # threaded: children are forked by a thread that is not the main thread; stubborn: descendants ignore SIGTERM/SIGHUP
+            cmd += " root " + ",".join(fl)
         t0 = time.time()
         tl.scen = sc["id"]
         try:
@@ -196,8 +207,9 @@ def direct_part(chk, exprs):
     skipped = []
     try:
         for sc in done:
-            case = {k: sc[k] for k in ("id", "depth", "fanout", "kind", "limit", "root_sleep", "threaded")}
+            case = {k: sc[k] for k in ("id", "depth", "fanout", "kind", "limit", "root_sleep", "threaded", "stubborn")}
             rc, out, _ = sc["result"]
+            chk.count("direct_trees_with_descendants_ignoring_SIGTERM", bool(sc["stubborn"]))
             want = sum(sc["fanout"] ** k for k in range(sc["depth"] + 1))
             if len(sc["pids"]) != want:
                 # the machine was too slow to start the whole tree before the deadline: outside the property's quantifier
